@@ -10,7 +10,7 @@ from hypothesis import strategies as st
 from ..core import Failure, Law, Violation, given_law
 from .. import gen
 
-RULE = ("ri in [0.02,0.95], nr in 5..18, azimuthal sampling npp in {5 nr (the kernel's own), int(2 pi nr) (make_kl's), 4 nr, "
+RULE = ("ri in [0.02,0.95] and the extremes 0.001 .. 0.995, nr in 5..18, azimuthal sampling npp in {5 nr (the kernel's own), int(2 pi nr) (make_kl's), 4 nr, "
         "6 nr}, nfunc in 2..min(40, nr*npp/15) (the code's own resolution rule), dim in 8..64 odd and even, mask on/off. "
         "Polar identities on the native grid: Gram matrix = I, zero mean, brute-force double pupil sum -1/2 <<K_i D K_j>> "
         "over all (nr*npp)^2 point pairs with an independent D = 6.8839 rho^(5/3) is diagonal with the returned variances; "
@@ -39,7 +39,7 @@ def quiet(f, *a, **k):
 @st.composite
 def polar_cases(draw, nrmax=18):
     nr = draw(st.integers(5, nrmax))
-    ri = draw(st.one_of(st.floats(0.02, 0.95), st.sampled_from([0.2, 0.25, 0.5, 0.7520014259644755, 0.1, 0.9])))
+    ri = draw(st.one_of(st.floats(0.02, 0.95), st.sampled_from([0.2, 0.25, 0.5, 0.7520014259644755, 0.1, 0.9]), st.sampled_from([0.001, 0.005, 0.01, 0.97, 0.99, 0.995])))
     mode = draw(st.sampled_from(["native", "native", "makekl", "x4", "x6"]))
     npp = {"native": 5 * nr, "makekl": int(2 * math.pi * nr), "x4": 4 * nr, "x6": 6 * nr}[mode]
     nmax = max(2, min(40, (nr * npp) // 15))
@@ -106,7 +106,7 @@ def cart_cases(draw):
     ncmar = draw(st.sampled_from([None, 0, 1, 2, 3, 5])) if route == "set_pctr" else 0
     if route == "set_pctr":
         dim = max(dim, 2 * (2 if ncmar is None else ncmar) + 8)
-    return {"ri": draw(st.one_of(st.floats(0.05, 0.9), st.sampled_from([0.2, 0.5]))), "nr": nr, "dim": dim, "mask": draw(st.booleans()),
+    return {"ri": draw(st.one_of(st.floats(0.05, 0.9), st.sampled_from([0.2, 0.5]), st.sampled_from([0.001, 0.01, 0.97, 0.99]))), "nr": nr, "dim": dim, "mask": draw(st.booleans()),
             "mask_as": draw(st.sampled_from(["bool", "bool", "numpy_bool", "int"])), "route": route, "ncmar": ncmar,
             "nmax": draw(st.integers(2, max(2, min(30, (nr * int(2 * math.pi * nr)) // 15)))), "outerscale": draw(st.sampled_from([None, None, 4.0]))}
 
